@@ -766,6 +766,11 @@ class SInt(SNum):
     def __int__(self):
         return concretize(self)
 
+    def __hash__(self):
+        # set / dict membership of an integer proxy (e.g. `idx in seen`): hashing by the term would make two different terms
+        # with equal values miss each other; fork over the feasible values instead, so hash and == agree with int semantics
+        return hash(concretize(self))
+
     def __round__(self, n=None):
         return self
 
